@@ -181,8 +181,9 @@ def run(tier, seed):
     two = [(a, b) for a in full for b in redq] + [(a, b) for a in redq for b in full if b not in redq]
     jobs += [(c, sur2, 2) for c in par.chunks(two, W)]
     # three chunks over the reduced contents, reduced surplus menu
-    three = [t for t in itertools.product(redq, repeat=3)]
-    jobs += [(c, SURPLUS_RED, 2 if not quick else 1) for c in par.chunks(three, W)]
+    # three chunks (each list is also read through slices): bounded so that the family stays around 10^7 executions
+    three = [t for t in itertools.product(redq if quick else red[:3] + red[-9:], repeat=3)]
+    jobs += [(c, SURPLUS_RED, 1) for c in par.chunks(three, W)]
     res = par.pmap(_shard, jobs)
     lad = ladder_cases()
     lad_bad = []
